@@ -151,6 +151,8 @@ pub struct JobCtx<'a> {
     pub det_check: bool,
     pub stop_on_fail: bool,
     pub planlog: Option<std::path::PathBuf>,
+    /// progress counter watched by the batch watchdog (bumped at every evaluation)
+    pub hb: Option<&'a AtomicU64>,
 }
 
 #[derive(Clone, Debug, Default, Serialize, Deserialize)]
@@ -430,6 +432,10 @@ impl<'a> JobCtx<'a> {
             // post-mortem mode: remember the plan about to run (the process may not survive it)
             let _ = std::fs::write(path, serde_json::to_string(plan).unwrap_or_default());
         }
+        if let Some(h) = self.hb {
+            // progress: the low 32 bits carry job+1, the high bits count evaluations
+            h.fetch_add(1 << 32, Ordering::Relaxed);
+        }
         let out = sim::simulate(plan);
         let (mine, other) = judge_for(self.check, plan, &out);
         let st = &mut self.stats;
@@ -646,7 +652,11 @@ pub fn run_batch(check: &dyn Check, tier: Tier, seed: u64, known: &Known) -> Bat
                     if v != last[i].0 {
                         last[i] = (v, Instant::now());
                     } else if v != 0 && v != u64::MAX && last[i].1.elapsed().as_secs() >= WEDGE_S {
-                        eprintln!("simcheck: job {} has made no progress for {} s: wedged", v - 1, WEDGE_S);
+                        eprintln!(
+                            "simcheck: job {} has made no progress for {} s: wedged",
+                            (v & 0xFFFF_FFFF).wrapping_sub(1),
+                            WEDGE_S
+                        );
                         std::process::abort();
                     }
                 }
@@ -665,6 +675,7 @@ pub fn run_batch(check: &dyn Check, tier: Tier, seed: u64, known: &Known) -> Bat
                     det_check: false,
                     stop_on_fail: false,
                     planlog: None,
+                    hb: Some(&heartbeats[my_slot as usize]),
                 };
                 loop {
                     if stop.load(Ordering::Relaxed) {
